@@ -29,6 +29,9 @@ FIXED = [
  ("F17", "C04", "fix: element_unwrap of a parentless element", "element_unwrap of a parentless element left parentless nodes that were siblings"),
  ("F32", "C11", "fix: MutableNodeMap::is_empty was inverted", "attributes_mut(e).is_empty() / namespaces_mut(e).is_empty() was inverted"),
  ("F46", "C07", "fix: reverse_children terminates", "reverse_children(n) never terminated for a node with >= 2 children (or one child plus attribute nodes)"),
+ ("F33", "C13", "fix: shallow_equal_ignore_attributes with a repeated name", "shallow_equal_ignore_attributes(a,b,&[p,p]) underflowed (panic with overflow checks, wrong false without)"),
+ ("F34", "C13", "fix: deep_equal of attribute or namespace nodes compares their values", "deep_equal of two attribute (or namespace) nodes was always true"),
+ ("F38", "C18", "fix: remove_insignificant_whitespace only treats XML white space", "a text node consisting of U+00A0 (or other non-XML Unicode space) was removed / did not protect sibling whitespace"),
  ("F31a", "C06", "fix: create_missing_prefixes returns an error for a document without an element", "create_missing_prefixes panicked on a document without element"),
 ]
 OPEN = [
